@@ -277,6 +277,70 @@ int main(int argc, char ** argv)
       x.detail = "after [" + seq_str(s) + "]: " + detail;
     }
   };
+  // ---- invalid-configuration grid (one process): an energy-sum window on a mode that cannot honour one must be refused whatever the
+  // daughter level (at the ground state some of these requests die earlier on the spin rule, at a 2+ level the window gate is alone),
+  // the refusal must leave the object un-initialised, and lifting the window must give what a fresh object gives
+  long grid_cells = 0, grid_refused = 0;
+  if (pshard == 0 && which == 0) {
+    static const int WIN[] = {4, 5, 6, 8, 10, 13, 14, 15, 16, 19};
+    static const struct { const char * iso; int level; } WHERE[] = {{"Mo100", 0}, {"Mo100", 1}, {"Mo100", 2}, {"Cd106", 0}, {"Cd106", 1}, {"Zr96", 0}};
+    for (auto & w : WHERE)
+      for (int mode = 1; mode <= 20; mode++) {
+        bool capable = false;
+        for (int x : WIN) capable = capable || x == mode;
+        if (capable) continue;
+        grid_cells++;
+        decay0_generator G;
+        std::string what;
+        bool refused = throws([&] {
+          G.set_decay_category(decay0_generator::DECAY_CATEGORY_DBD);
+          G.set_decay_isotope(w.iso);
+          G.set_decay_dbd_level(w.level);
+          G.set_decay_dbd_mode((bxdecay0::dbd_mode_type)mode);
+          G.set_decay_dbd_esum_range(0.25, 0.75);
+          Tape t2(seed, 11);
+          G.initialize(t2);
+        });
+        std::string cell = fmt("%s/L%d/m%d + window [0.25,0.75]", w.iso, w.level, mode);
+        auto gfail = [&](const std::string & key, const std::string & detail) {
+          Mismatch & x = mm[key];
+          if (x.count++ == 0) {
+            x.key = key;
+            x.detail = detail;
+          }
+        };
+        if (!refused) {
+          gfail(fmt("invalid-configuration-accepted|window-on-mode-%d", mode), cell + ": initialize() accepts an energy-sum window on a mode that has no window support");
+          continue;
+        }
+        grid_refused++;
+        if (G.is_initialized()) gfail("initialized-after-failed-initialize|grid", cell + ": initialize() raised but is_initialized() is true");
+        // lift the window on the same object / on a fresh one: alike
+        decay0_generator F;
+        std::string og, of;
+        auto tryinit = [&](decay0_generator & X, bool configure, std::string & out) {
+          return throws([&] {
+            if (configure) {
+              X.set_decay_category(decay0_generator::DECAY_CATEGORY_DBD);
+              X.set_decay_isotope(w.iso);
+              X.set_decay_dbd_level(w.level);
+              X.set_decay_dbd_mode((bxdecay0::dbd_mode_type)mode);
+            } else {
+              X.set_decay_dbd_esum_range(std::numeric_limits<double>::quiet_NaN(), std::numeric_limits<double>::quiet_NaN());
+            }
+            Tape t3(seed, 12);
+            X.initialize(t3);
+            bxdecay0::event e3;
+            X.shoot(t3, e3);
+            out = fmt("draws=%zu ", t3.pos) + event_json(e3);
+          });
+        };
+        bool tg = tryinit(G, false, og), tf = tryinit(F, true, of);
+        if (tg != tf || og != of)
+          gfail("unusable-after-failed-initialize|grid", cell + ": after the refusal, lifting the window gives " + (tg ? std::string("an exception") : og.substr(0, 100)) + "; a fresh object without window gives "
+                                                           + (tf ? std::string("an exception") : of.substr(0, 100)));
+      }
+  }
   while (!frontier.empty()) {
     std::string sk = frontier.front();
     frontier.pop_front();
@@ -445,7 +509,8 @@ int main(int argc, char ** argv)
       }
     }
   }
-  fprintf(OUT, "{\"states\":%zu,\"transitions\":%ld,\"traces\":%ld,\"calls\":%ld,\"alphabet\":%zu,\"max_depth\":%d,\"reset_probes\":%ld,\"sample\":%s,", seq_of.size(), transitions, traces, calls,
+  fprintf(OUT, "{\"grid_cells\":%ld,\"grid_refused\":%ld,", grid_cells, grid_refused);
+  fprintf(OUT, "\"states\":%zu,\"transitions\":%ld,\"traces\":%ld,\"calls\":%ld,\"alphabet\":%zu,\"max_depth\":%d,\"reset_probes\":%ld,\"sample\":%s,", seq_of.size(), transitions, traces, calls,
           ops.size(), max_depth, probes, jstr(sample).c_str());
   emit_mismatches(OUT, "mismatches", mm);
   fprintf(OUT, "}\n");
